@@ -388,8 +388,10 @@ func (t *tarRun) followUp(links []string, describe func() string) {
 	c, sb := t.c, t.sb
 	first := describe()
 	for _, l := range links {
-		for _, kt := range [][2]string{{"blob", l}, {"blob", l + "/zz"}, {"blob", l + "/d/zz"}, {"unpack", l}, {"unpack", l + "/zz"}} {
-			kind, title := kt[0], kt[1]
+		for _, kt := range [][3]string{{"blob", l, ""}, {"blob", l + "/zz", ""}, {"blob", l + "/d/zz", ""}, {"unpack", l, ""}, {"unpack", l + "/zz", ""},
+			// the same with DisableOverwrite, which looks at the destination before anything is written
+			{"blob", l, "disableoverwrite"}, {"blob", l + "/zz", "disableoverwrite"}, {"blob", l + "/d/zz", "disableoverwrite"}, {"unpack", l + "/zz", "disableoverwrite"}} {
+			kind, title, opt := kt[0], kt[1], kt[2]
 			desc := ocispec.Descriptor{MediaType: "application/octet-stream", Annotations: map[string]string{ocispec.AnnotationTitle: title}}
 			blob := []byte(pwn)
 			if kind == "unpack" {
@@ -406,7 +408,7 @@ func (t *tarRun) followUp(links []string, describe func() string) {
 			}
 			desc.Digest = digest.FromBytes(blob)
 			desc.Size = int64(len(blob))
-			err, _ := pushOnce(sb, desc, blob, "")
+			err, _ := pushOnce(sb, desc, blob, opt)
 			c.Count("second_push_through_a_link_left_behind", 1)
 			c.Evals++
 			if err != nil {
@@ -422,7 +424,7 @@ func (t *tarRun) followUp(links []string, describe func() string) {
 			}
 			what := map[string]string{"blob": "named blob", "unpack": "archive unpacked"}[kind]
 			t.violation("a later push ("+what+") writes outside the working directory through a symbolic link that an accepted archive left behind (the link's target is lexically inside, really outside)",
-				"first push: "+first+"\nsecond push into the same working directory (a new file store, default options): "+what+" with title "+fmt.Sprintf("%q", title)+" returned: "+fmt.Sprint(err)+
+				"first push: "+first+"\nsecond push into the same working directory (a new file store, options: "+map[string]string{"": "default", "disableoverwrite": "DisableOverwrite"}[opt]+"): "+what+" with title "+fmt.Sprintf("%q", title)+" returned: "+fmt.Sprint(err)+
 					"\nchanged outside the working directory:\n"+strings.Join(lines, "\n"))
 			sb.repair()
 		}
